@@ -432,3 +432,63 @@ def contracts():
     for c in extra:
         c.prop = PROP
     return _c07_base4() + extra
+
+
+# ---------------------------------------------------------------------------------------------
+# concrete probe: sub-objects whose truth value is False are sub-objects like any other
+# ---------------------------------------------------------------------------------------------
+FALSY_SUB_REPLAY = '''import sys, os, itertools
+sys.path.insert(0, os.environ.get('PYVC_REPO', '/repo'))
+import param
+bad = []
+class Leaf(param.Parameterized):
+    x = param.Number(0)
+    items = param.List([])
+    def __len__(self):
+        return len(self.items)
+class Mid(param.Parameterized):
+    leaf = param.Parameter()
+    x = param.Number(0)
+    def __bool__(self):
+        return False
+for depth, when in itertools.product((1, 2), ('constructor', 'later', 'replaced')):
+    calls = []
+    if depth == 1:
+        class Top(param.Parameterized):
+            sub = param.Parameter()
+            @param.depends('sub.x', watch=True)
+            def m(self):
+                calls.append(self.sub.x)
+        mk = lambda: Leaf()
+        leaf_of = lambda t: t.sub
+    else:
+        class Top(param.Parameterized):
+            sub = param.Parameter()
+            @param.depends('sub.leaf.x', watch=True)
+            def m(self):
+                calls.append(self.sub.leaf.x)
+        mk = lambda: Mid(leaf=Leaf())
+        leaf_of = lambda t: t.sub.leaf
+    if when == 'constructor':
+        t = Top(sub=mk())
+    elif when == 'later':
+        t = Top(); t.sub = mk()
+    else:
+        t = Top(sub=mk()); t.sub = mk()
+    del calls[:]
+    leaf_of(t).x = 5
+    if calls != [5]:
+        bad.append('a falsy sub-object (depth %d, attached by %s): a change of its x ran the depending method %d times, expected once'
+                   % (depth, when, len(calls)))
+    old = leaf_of(t)
+    t.sub = mk()
+    del calls[:]
+    old.x = 9
+    if calls:
+        bad.append('a detached falsy sub-object (depth %d, %s) still runs the method' % (depth, when))
+if bad:
+    print('REPRODUCED: ' + bad[0]); sys.exit(1)
+print('NOT-REPRODUCED'); sys.exit(0)
+'''
+
+PROBES = [("falsy sub-objects are followed like any other", FALSY_SUB_REPLAY)]
